@@ -130,17 +130,17 @@ def _daqmx_dims(data_objs):
         d = idx['daqmx']
         if widths is None:
             widths = list(d['widths'])
-            rows = [0] * len(widths)
+            rows = [None] * len(widths)
         elif list(d['widths']) != widths:
             raise SpecError('daqmx widths differ')
         for sc in d['scalers']:
             b = sc['buffer']
             if b >= len(widths):
                 raise SpecError('scaler buffer out of range')
-            if rows[b] not in (0, idx['count']):
+            if rows[b] not in (None, idx['count']):
                 raise SpecError('objects of one buffer differ in rows')
             rows[b] = idx['count']
-    return list(zip(rows, widths)) if widths is not None else []
+    return [(r or 0, w_) for r, w_ in zip(rows, widths)] if widths is not None else []
 
 
 def _enc_index(L, idx, e):
@@ -192,13 +192,14 @@ def _string_chunk(vals, e):
     return head + body
 
 
-def build(spec, explicit=False):
+def build(spec, explicit=False, allow_forbidden=False):
     """Encode and interpret a spec.  Raises SpecError / Forbidden.
 
     explicit=True re-encodes the same logical content with every active data object restated in
     full and kTocNewObjList in every segment (the comparison twin of C02)."""
     w = World()
     w.spec = spec
+    w.forbidden = []
     w.names = spec['names']
     version = spec.get('version', 4713)
     segs = spec['segments']
@@ -217,7 +218,9 @@ def build(spec, explicit=False):
         new_list = seg.get('new_obj_list', True)
         if not has_meta:
             if k == 0:
-                raise Forbidden('first segment without metadata')
+                if not allow_forbidden:
+                    raise Forbidden('first segment without metadata')
+                w.forbidden.append('first segment without metadata')
             listed = []
         else:
             listed = seg.get('listed', [])
@@ -245,11 +248,16 @@ def build(spec, explicit=False):
                     has = True
                 elif kind == 'same':
                     if path not in seen:
-                        raise Forbidden('matches-previous for a never-seen path')
-                    if last.get(path) is None:
-                        raise SpecError('matches-previous without an index (not generated: don\'t-care)')
-                    idx = _copy_idx(last[path])
-                    has = True
+                        if not allow_forbidden:
+                            raise Forbidden('matches-previous for a never-seen path')
+                        w.forbidden.append('matches-previous for a never-seen path')
+                        idx = None
+                        has = False
+                    else:
+                        if last.get(path) is None:
+                            raise SpecError('matches-previous without an index (not generated: don\'t-care)')
+                        idx = _copy_idx(last[path])
+                        has = True
                 elif kind == 'none':
                     idx = _copy_idx(last.get(path))
                     has = False
@@ -264,7 +272,12 @@ def build(spec, explicit=False):
                         ch = w.chans[path] = Chan(path)
                     if idx is not None:
                         if ch.type is not None and ch.type != idx['type']:
-                            raise Forbidden('channel changes data type')
+                            if not allow_forbidden:
+                                raise Forbidden('channel changes data type')
+                            w.forbidden.append('channel changes data type')
+                            # keep encoding: forget the old logical values, they are not compared
+                            ch.type = idx['type']
+                            ch.values = [] if ch.type == 'str' else bytearray()
                 if path not in seen:
                     seen.add(path)
                     w.objects.append(path)
@@ -287,12 +300,18 @@ def build(spec, explicit=False):
                     ch.type = idx['type']
                     if ch.type == 'daqmx':
                         ch.scalers = OrderedDict()
+                        for sc in idx['daqmx']['scalers']:
+                            ch.scalers[sc['id']] = [sc['type'], bytearray()]
                     elif ch.type == 'str':
                         ch.values = []
                     else:
                         ch.values = bytearray()
                 elif ch.type != idx['type']:
-                    raise Forbidden('channel changes data type')
+                    if not allow_forbidden:
+                        raise Forbidden('channel changes data type')
+                    w.forbidden.append('channel changes data type')
+                    ch.type = idx['type']
+                    ch.values = [] if ch.type == 'str' else bytearray()
         data_objs = [(p, h, i) for (p, h, i) in active if h]
         for (p, h, i) in data_objs:
             if i is None:
